@@ -1,4 +1,5 @@
 import Gaftools.Props.C15Bicc
+import Gaftools.Proofs.BiccLemmas2
 /-!
 # C15 (biccs, continued) — the reported components are the blocks
 
@@ -11,25 +12,25 @@ open Gaftools.Gfa Gaftools.Algo Gaftools.Spec.Graph
 /-- RUNG 6 — every link between two different nodes lies in at least one reported component (both ends in its node set) -/
 theorem biccs_covers_links (nb : V → List V) (Vs : List V) (hu : Undirected nb Vs) (hd : Vs.Nodup) (root : V) (hr : root ∈ Vs)
     (hc : connectedB nb Vs = true) (u v : V) (hu' : u ∈ Vs) (huv : v ∈ nb u) (hne : u ≠ v) :
-    ∃ c ∈ (biccsFrom nb root (biccFuel nb Vs)).1, u ∈ c ∧ v ∈ c := by
-  sorry
+    ∃ c ∈ (biccsFrom nb root (biccFuel nb Vs)).1, u ∈ c ∧ v ∈ c :=
+  Gaftools.Proofs.Bicc2.covers_links nb Vs hu root hr hc u v hu' huv hne
 
 /-- RUNG 7 — two different reported components share at most one node (so every link lies in exactly one) -/
 theorem biccs_comps_share_one (nb : V → List V) (Vs : List V) (hu : Undirected nb Vs) (hd : Vs.Nodup) (root : V) (hr : root ∈ Vs)
     (hc : connectedB nb Vs = true) :
     let cs := (biccsFrom nb root (biccFuel nb Vs)).1
-    ∀ i j (hi : i < cs.length) (hj : j < cs.length), i ≠ j → ∀ x y, x ∈ cs[i] → x ∈ cs[j] → y ∈ cs[i] → y ∈ cs[j] → x = y := by
-  sorry
+    ∀ i j (hi : i < cs.length) (hj : j < cs.length), i ≠ j → ∀ x y, x ∈ cs[i] → x ∈ cs[j] → y ∈ cs[i] → y ∈ cs[j] → x = y :=
+  Gaftools.Proofs.Bicc2.comps_share_one nb Vs hu root hr
 
 /-- RUNG 8 — no single node removal disconnects a reported component: for every node `x`, any two nodes of a component
     other than `x` stay connected in the graph without `x` -/
 theorem biccs_comp_biconnected (nb : V → List V) (Vs : List V) (hu : Undirected nb Vs) (hd : Vs.Nodup) (root : V) (hr : root ∈ Vs)
     (hc : connectedB nb Vs = true) :
-    ∀ c ∈ (biccsFrom nb root (biccFuel nb Vs)).1, ∀ x a b, a ∈ c → b ∈ c → a ≠ x → b ≠ x → Reach (nbWithout nb x) a b := by
-  sorry
+    ∀ c ∈ (biccsFrom nb root (biccFuel nb Vs)).1, ∀ x a b, a ∈ c → b ∈ c → a ≠ x → b ≠ x → Reach (nbWithout nb x) a b :=
+  Gaftools.Proofs.Bicc2.comp_biconnected nb Vs hu root hr
 
 /-- TOP RUNG — the full statement `BiccExact` of `Props/C15.lean` -/
-theorem biccExact : BiccExact := by
-  sorry
+theorem biccExact : BiccExact :=
+  fun nb Vs hu hd hc root hr => Gaftools.Proofs.Bicc2.biccExact_main nb Vs hu hd hc root hr
 
 end Gaftools.C15
